@@ -262,6 +262,12 @@ def _instances(trace, meta):
                 f = dict(cbase)
                 f.update(cl="Chain.Ret", obs=[r["present"], r["typ"], r["dbase"], r["def"]], comps=comps_of(o), ret=micro_ret(o["ret"]))
                 yield (l, "Chain.Ret", "return", f)
+                if k == "argparse":
+                    for i, s0 in enumerate(cur["params"]):
+                        q = _by_name(a["params"], s0["name"])
+                        if s0["def"] == "none" and s0["name"] != "kw" and not _corrupt(s0) and q is not None \
+                                and any(x["def"] not in ("absent", "none") for x in cur["params"][:i]):
+                            yield (l, "NoneRecovered", s0["name"], dict(cbase, cl="NoneRecovered", obs=q["def"], s=micro(s0), comps=comps_of(cur)))
                 cur = a
             path_kinds.append(k)
             last = dict(last, irn=last["irn"] + 1)
@@ -298,6 +304,8 @@ def _instances(trace, meta):
                 yield sl("ProseKept.base", q["dbase"])
                 yield sl("ProseKept.stop", q["dstop"])
                 yield sl("ProseKept.ann", q["dann"])
+                if k == "argparse" and s["def"] == "none" and s["name"] != "kw" and any(x["def"] not in ("absent", "none") for x in b["params"][:i]):
+                    yield sl("NoneRecovered", q["def"])
             def rl(cl, obs):
                 f = dict(base)
                 f.update(cl=cl, obs=obs, comps=comps_of(b))
@@ -456,6 +464,15 @@ def build(prop, thorough, rnd):
                     and ("ret", air["ret"]["typ"]) not in seen and len([k for k in seen if k[0] == "ret"]) < 2:
                 seen.add(("ret", air["ret"]["typ"]))
                 picked.append(air)
+        # the same entries with the `Defaults to` sentence already in the prose (what the docstring parsers hand on)
+        import copy
+        for air in list(picked):
+            # (only defaults whose plain rendering is what doctrans itself would write, under a declared type)
+            if air["params"] and air["params"][0]["def"] in ("intPos", "boolT", "float") and air["params"][0]["typ"] != "none":
+                v = copy.deepcopy(air)
+                v["params"][0]["dann"] = "same"
+                v["params"][0]["dstop"] = True
+                picked.append(v)
         lengths = range(40, 104) if thorough else range(50, 98)
         for length in lengths:
             tb = D.sweep_table(length)
@@ -464,6 +481,9 @@ def build(prop, thorough, rnd):
                     oo = dict(o, dd=True, wrap=True)
                     for air in picked:
                         add(tb, air, [("emit", kind, oo), ("parse",)])
+                        if air["params"] and air["params"][0]["dann"] == "same":
+                            # default text off: the sentence that came in with the prose has to go, wherever the line breaks
+                            add(tb, air, [("emit", kind, dict(oo, dd=False)), ("parse",)])
 
     if prop == "C01":
         roundtrips(DOC)
